@@ -1,14 +1,146 @@
 import Driver.Proto
-/-! Driver sub-command `lazy` (stub – filled in by its cluster). -/
+import PtVerif.Model.Lazy
+import PtVerif.Generated.LazyConfig
+import Std.Data.HashSet
+/-! Driver sub-command `lazy`: the lazy-loading machine (C09, C10) on `PtGen.lazyConfig`.
+
+Event text (requests and generated histories use the same syntax):
+  `read t chain p` | `has t chain p` | `init m t` | `import m` | `assign t chain p v` | `mutate t chain p n`
+  chain = node(`/`node)*, node = `E|I|N` `:` atom `:` rows, rows = `-` or `i.k` joined by `+`.
+Requests: `reset`, an event (reply: what it served), `canon <event>` (what a fresh interpreter
+serves), `atom <chain>` (adds a chain to the univ used by `closure`), `closure g T` (one shortest
+history per reachable state × event of group g with private tables 1..T; replies `H ev;ev;…` lines
+then `end n`). -/
 namespace Driver.LazyCmd
-open Driver
+open Driver PtLazy
+
+def cfg : Config := PtGen.lazyConfig
 
 structure St where
-  dummy : Unit := ()
+  s : State := cfg.init
+  univ : Array (List Node) := #[]
 
 def init : St := {}
 
+def clsTok : String → Option Cls
+  | "E" => some .element | "I" => some .isotope | "N" => some .ion | _ => none
+
+def showCls : Cls → String
+  | .element => "E" | .isotope => "I" | .ion => "N"
+
+def rowsTok (t : String) : Option (List (Nat × Nat)) :=
+  if t = "-" then some [] else
+    (t.splitOn "+").foldr (fun p acc =>
+      match acc, p.splitOn "." with
+      | some l, [i, k] => match i.toNat?, k.toNat? with
+        | some i, some k => some ((i, k) :: l)
+        | _, _ => none
+      | _, _ => none) (some [])
+
+def nodeTok (t : String) : Option Node :=
+  match t.splitOn ":" with
+  | [c, a, r] => do
+    let c ← clsTok c; let a ← a.toNat?; let r ← rowsTok r
+    some ⟨c, a, r⟩
+  | _ => none
+
+def chainTok (t : String) : Option (List Node) :=
+  (t.splitOn "/").foldr (fun p acc => match acc, nodeTok p with
+    | some l, some n => some (n :: l)
+    | _, _ => none) (some [])
+
+def showRows (r : List (Nat × Nat)) : String :=
+  if r.isEmpty then "-" else "+".intercalate (r.map fun (i, k) => s!"{i}.{k}")
+
+def showChain (c : List Node) : String :=
+  "/".intercalate (c.map fun n => s!"{showCls n.cls}:{n.atom}:{showRows n.rows}")
+
+def eventTok : Toks → Option Event
+  | ["read", t, c, p] => do some (.read (← t.toNat?) (← chainTok c) (← p.toNat?))
+  | ["has", t, c, p] => do some (.has (← t.toNat?) (← chainTok c) (← p.toNat?))
+  | ["init", m, t] => do some (.init (← m.toNat?) (← t.toNat?))
+  | ["import", m] => do some (.importMod (← m.toNat?))
+  | ["assign", t, c, p, v] => do some (.assign (← t.toNat?) (← chainTok c) (← p.toNat?) (← v.toNat?))
+  | ["mutate", t, c, p, n] => do some (.mutate (← t.toNat?) (← chainTok c) (← p.toNat?) (← n.toNat?))
+  | _ => none
+
+def showEvent : Event → String
+  | .read t c p => s!"read {t} {showChain c} {p}"
+  | .has t c p => s!"has {t} {showChain c} {p}"
+  | .init m t => s!"init {m} {t}"
+  | .importMod m => s!"import {m}"
+  | .assign t c p v => s!"assign {t} {showChain c} {p} {v}"
+  | .mutate t c p n => s!"mutate {t} {showChain c} {p} {n}"
+
+def showMarks (l : List Nat) : String := "[" ++ ",".intercalate (l.map toString) ++ "]"
+
+def showServed : Served → String
+  | .data i k m => s!"data {i} {k} {showMarks m}"
+  | .user v => s!"user {v}"
+  | .dflt i k m => s!"dflt {i} {k} {showMarks m}"
+  | .computed i k pos m => s!"computed {i} {k} {pos} {showMarks m}"
+  | .attrError => "attrError"
+  | .otherError => "otherError"
+  | .bool b => s!"bool {b}"
+  | .done => "done"
+  | .outOfFuel => "outOfFuel"
+
+/-- the events of group gi over the univ, for tables 0..T -/
+def groupEvents (u : Array (List Node)) (gi : Nat) (T : Nat) : List Event :=
+  match cfg.groups[gi]? with
+  | none => []
+  | some g =>
+    let tables := List.range (T + 1)
+    let chains := u.toList
+    let reads := tables.flatMap fun t => chains.flatMap fun c => g.attrs.flatMap fun p =>
+      [Event.read t c p, Event.has t c p]
+    let inits := tables.flatMap fun t => g.inits.map fun (m, _) => Event.init m t
+    let imports := (cfg.importReads.filter fun (_, rs) => rs.any fun (_, p) => g.attrs.contains p).map
+      fun (m, _) => Event.importMod m
+    let writes := (tables.filter (· ≠ 0)).flatMap fun t => chains.flatMap fun c => g.attrs.flatMap fun p =>
+      [Event.assign t c p 1, Event.mutate t c p 1]
+    reads ++ inits ++ imports ++ writes
+
+/-- breadth-first closure over the *control* state (class dictionaries, properties, executed
+    effects; the log of user values is not part of the key); returns (state count, histories: one per reachable state × event) -/
+partial def closure (events : List Event) (limit : Nat) : Nat × List (List Event) := Id.run do
+  let mut seen : Std.HashSet (List GS) := {}
+  let mut queue : Array (State × List Event) := #[(cfg.init, [])]
+  seen := seen.insert cfg.init.gs
+  let mut hist : List (List Event) := []
+  let mut qi := 0
+  while qi < queue.size && seen.size < limit do
+    let (s, path) := queue[qi]?.getD (cfg.init, [])
+    qi := qi + 1
+    for e in events do
+      hist := (e :: path) :: hist
+      let s' := (step cfg s e).1
+      if !seen.contains s'.gs then
+        seen := seen.insert s'.gs
+        queue := queue.push (s', e :: path)
+  return (seen.size, hist)
+
 def handle (st : St) : Toks → IO St
-  | _ => do reply "ERR bad-op"; pure st
+  | ["reset"] => pure { st with s := cfg.init }
+  | ["atom", c] => match chainTok c with
+    | some c => pure { st with univ := st.univ.push c }
+    | none => do reply "ERR bad-chain"; pure st
+  | "canon" :: rest => match eventTok rest with
+    | some e => do reply (showServed (canon cfg e)); pure st
+    | none => do reply "ERR bad-event"; pure st
+  | ["closure", g, t, limit] => match g.toNat?, t.toNat?, limit.toNat? with
+    | some g, some t, some limit => do
+      let (n, hs) := closure (groupEvents st.univ g t) limit
+      for h in hs do
+        reply ("H " ++ ";".intercalate (h.reverse.map showEvent))
+      reply s!"end {n}"
+      pure st
+    | _, _, _ => do reply "ERR bad-op"; pure st
+  | toks => match eventTok toks with
+    | some e => do
+      let (s', v) := step cfg st.s e
+      reply (showServed v)
+      pure { st with s := s' }
+    | none => do reply "ERR bad-op"; pure st
 
 end Driver.LazyCmd
